@@ -213,6 +213,13 @@ def check_config(config: dict) -> None:
     if n_ens < 2:
         raise TOMLConfigError("Define at least 2 interfaces!")
 
+    if isinstance(intf_cap, bool) and (
+        "interface_cap" in config["simulation"]["tis_set"]
+    ):
+        # False is only the "no cap" sentinel here; the sampler reads a
+        # boolean given in the .toml as the number 0 or 1.
+        raise TOMLConfigError("interface_cap must be a number!")
+
     if lambda_minus_one is not False and lambda_minus_one >= intf[0]:
         raise TOMLConfigError(
             "lambda_minus_one interface must be less than the first interface!"
